@@ -1544,6 +1544,17 @@ pub struct XmlAttr {
     attribute: info::XmlNode<info::XmlAttribute>,
 }
 
+impl XmlAttr {
+    /// The element this attribute is attached to (DOM Level 2 `ownerElement`).
+    pub fn owner_element(&self) -> Option<XmlElement> {
+        self.attribute
+            .borrow()
+            .owner_element()
+            .ok()
+            .map(XmlElement::from)
+    }
+}
+
 impl Attr for XmlAttr {
     fn name(&self) -> String {
         self.attribute.borrow().local_name().to_string()
